@@ -449,6 +449,9 @@ fn client_main(id: usize, hash_seed: u64, ops: Vec<Op>, shared: Arc<Shared>) {
 /// of which at the next hook). Read by the adaptive sweep generator.
 pub static LAST_RUN_INFO: Mutex<(Vec<u64>, u64, u64)> = Mutex::new((Vec::new(), 0, 0));
 
+/// Set in the processes of the cold-start sweep: no warm-up builds, the first use of everything happens inside the run.
+pub static COLD: AtomicBool = AtomicBool::new(false);
+
 /// Longest stretch (instructions arrived at inside this executable) a trace run records after one visit.
 pub const TRACE_CAPACITY: u32 = 20_000;
 
@@ -504,7 +507,9 @@ pub fn execute_run(spec: &RunSpec) -> RunResult {
     let n = spec.clients.len();
     if !spec.preempts.is_empty() {
         step::install(preempt_now);
-        warm_up_for_stepping();
+        if !COLD.load(Ordering::SeqCst) {
+            warm_up_for_stepping();
+        }
         // a breakpoint position refers to a recorded stretch: record it first if this process has none yet
         for p in spec.preempts.iter().filter(|p| p.via == 1 && p.steps > 0) {
             let key = (client_fingerprint(&spec.clients[p.client]), p.visit);
